@@ -283,7 +283,7 @@ def check_c06a(op_src, domains, finitary, tags, seed=0):
 
 def replay_c06a(op_src, domains, finitary, tags, seed):
     return (
-        "import sys\nsys.path.insert(0, '/repo'); sys.path.insert(0, '/verif/rtc')\n"
+        "import sys, os\nsys.path.insert(0, os.environ.get('VERIF_REPO', '/repo')); sys.path.insert(0, '/verif/rtc')\n"
         "import numpy as np\nfrom funsor import ops\nfrom funsor.domains import Array, find_domain\n"
         "import terms_cases as TK\n"
         "OP = %r; DOMAINS = %r\n" % (op_src, domains)
